@@ -134,7 +134,8 @@ def install(pe):
     E[N + "abs"] = lambda pe, a, k: _abs(pe, a[0])
     E[N + "absolute"] = E[N + "abs"]
     E[N + "fabs"] = E[N + "abs"]
-    E[N + "power"] = lambda pe, a, k: pe.binop(ast.Pow(), a[0], a[1])
+    _seq = lambda pe, x: _asarr(pe, x) if isinstance(x, (list, tuple)) else x
+    E[N + "power"] = lambda pe, a, k: pe.binop(ast.Pow(), _seq(pe, a[0]), _seq(pe, a[1]))
     E[N + "square"] = lambda pe, a, k: pe.binop(ast.Mult(), a[0], a[0])
     E[N + "multiply"] = lambda pe, a, k: pe.binop(ast.Mult(), a[0], a[1])
     E[N + "add"] = lambda pe, a, k: pe.binop(ast.Add(), a[0], a[1])
